@@ -26,4 +26,7 @@ edb_priv* w_priv_new(holder* h)
 bool w_keep_id(edb_priv* p, const function_decl* f) { return p->keep_wrt_id_of_fns_to_keep(f); }
 bool w_keep_suppress(edb_priv* p, const function_decl* f) { return p->keep_wrt_regex_of_fns_to_suppress(f); }
 bool w_keep_keep(edb_priv* p, const function_decl* f) { return p->keep_wrt_regex_of_fns_to_keep(f); }
+bool w_keep_id_v(edb_priv* p, const var_decl* v) { return p->keep_wrt_id_of_vars_to_keep(v); }
+bool w_keep_suppress_v(edb_priv* p, const var_decl* v) { return p->keep_wrt_regex_of_vars_to_suppress(v); }
+bool w_keep_keep_v(edb_priv* p, const var_decl* v) { return p->keep_wrt_regex_of_vars_to_keep(v); }
 }
